@@ -18,7 +18,7 @@ def run(A, rep, tier):
     P.rules_planner_counts(A, rep, F)
     X = E.ExecFacts(A)
     E.rule_ex3(A, rep, X)
-    E.rule_ex6(A, rep, X)
+    E.rule_ex6(A, rep, X, stop_rules=False)
     E.rule_ex7(A, rep, X)
     # progress numerator: incremented once per dequeued op with a main task
     import ast
